@@ -953,6 +953,9 @@ def run(ctx, selftest=False):
         'observation = tracing tasks of kind "inst"/"wavefront" of the CU plus port hooks; the instruction kinds are taken from '
         'what the real decoder returned',
         'reference for values and instruction paths = the real emulation CU on the same work-groups',
+        'front end ("fe" scenarios): the facts logged with Issue / Fetch are read from the real objects inside the tracing hook '
+        '(public fields of the wavefronts and the CU; the pools\' private wavefront lists and IssueArbiter.lastSIMDID by reflection); '
+        'the StartTask of an instruction is called between the arbiter\'s choice and AcceptWave, the one of a fetch right after the send',
     ]
 
 
